@@ -49,6 +49,7 @@ rule ent { condition: math.entropy(0, filesize) > 1.0 }
 rule log { condition: console.log("fs=", filesize) }
 rule ext1 { condition: ext == "v1" }
 rule mtch { condition: ext matches /v[0-9]/ }
+rule extmod { condition: tests == 5 }
 """ % md5
 
 
@@ -106,8 +107,9 @@ def build_ops(w):
 
 
 def compile_rules(w):
-    rep = w.batch(["compiler 0", "defc 0 ext s " + yv.hx(b"v0"), "add 0 - " + yv.hx(rules_text()), "getrules 0 0", "cdestroy 0"])
-    assert rep[2]["errors"] == 0 and rep[3]["rc"] == 0, rep
+    # `tests` is an external variable here, and the name of a built-in module that these rules do not import (externals and modules share the scanner's object table)
+    rep = w.batch(["compiler 0", "defc 0 ext s " + yv.hx(b"v0"), "defc 0 tests i 5", "add 0 - " + yv.hx(rules_text()), "getrules 0 0", "cdestroy 0"])
+    assert rep[3]["errors"] == 0 and rep[4]["rc"] == 0, rep
 
 
 def ext_after(hist, ops):
